@@ -45,7 +45,9 @@ Inductive tid :=
 | TMain
 | TWorker (k : nat)          (* the worker's next step other than leaving *)
 | TWorkerExit (k : nat)      (* the worker takes the `done` / closed-queue branch of its select *)
-| TCancel.                   (* the environment cancels the context *)
+| TCancel                    (* the environment cancels the context *)
+| TNote.                     (* the observer notes which exec calls are in flight (a pseudo-event of the
+                                callback log; always enabled; touches nothing else) *)
 
 Fixpoint set_nth {A} (l : list A) (i : nat) (x : A) : list A :=
   match l, i with
@@ -141,6 +143,33 @@ Definition task_step (s : bst) (k i : nat) (pc : tpc) : bst :=
          ilog := ilog s |}
   end.
 
+(* the exec calls in flight: a worker is inside node.Exec (the harness parks every exec call on a gate) *)
+Definition parked_call (w : wstate) : option (nat * nat) :=
+  match w with
+  | WRun i (PExec a _) => if has_exec c then Some (i, a) else None   (* no exec function: no user code to park in *)
+  | _ => None
+  end.
+
+Definition parked (s : bst) : list (nat * nat) :=
+  flat_map (fun w => match parked_call w with Some p => [p] | None => [] end) (ws s).
+
+Definition call_code (p : nat * nat) : nat := 16 * fst p + snd p.
+Fixpoint insert_sorted (x : nat) (l : list nat) : list nat :=
+  match l with
+  | [] => [x]
+  | y :: t => if Nat.leb x y then x :: l else y :: insert_sorted x t
+  end.
+Definition sort_nat (l : list nat) : list nat := fold_right insert_sorted [] l.
+
+(* the quiescent point becomes a pseudo-event of the callback log *)
+Definition note_park (s : bst) (ps : list (nat * nat)) : bst :=
+  {| enq := enq s; adding := adding s; mpc := mpc s; deq := deq s; ws := ws s;
+     slots := slots s; stopf := stopf s; wgc := wgc s; closed := closed s;
+     base := {| log := log (base s) ++ [(CPark nd (sort_nat (map call_code ps)), ROk VNil, false)];
+                cancelled := cancelled (base s) |};
+     ilog := ilog s |}.
+
+
 Definition bstep (s : bst) (t : tid) : option bst :=
   match t with
   | TMain =>
@@ -194,6 +223,7 @@ Definition bstep (s : bst) (t : tid) : option bst :=
       Some {| enq := enq s; adding := adding s; mpc := mpc s; deq := deq s; ws := ws s;
               slots := slots s; stopf := stopf s; wgc := wgc s; closed := closed s;
               base := {| log := log (base s); cancelled := true |}; ilog := ilog s |}
+  | TNote => Some (note_park s (parked s))
   end.
 
 Fixpoint brun (s : bst) (sched : list tid) : bst :=
@@ -206,15 +236,6 @@ Fixpoint brun (s : bst) (sched : list tid) : bst :=
 (* A worker is parked when it is inside node.Exec (the harness parks every exec call on a
    gate).  Internal steps are all the others.  `quiesce` runs internal steps, lowest thread
    first, until none is enabled; `release` lets one parked call return. *)
-Definition parked_call (w : wstate) : option (nat * nat) :=
-  match w with
-  | WRun i (PExec a _) => if has_exec c then Some (i, a) else None   (* no exec function: no user code to park in *)
-  | _ => None
-  end.
-
-Definition parked (s : bst) : list (nat * nat) :=
-  flat_map (fun w => match parked_call w with Some p => [p] | None => [] end) (ws s).
-
 Definition internal_enabled (s : bst) (t : tid) : bool :=
   match t with
   | TWorker k =>
@@ -227,6 +248,7 @@ Definition internal_enabled (s : bst) (t : tid) : bool :=
       Nat.eqb (deq s) (enq s) && match bstep s t with Some _ => true | None => false end
   | TMain => match bstep s t with Some _ => true | None => false end
   | TCancel => false
+  | TNote => false
   end.
 
 Definition all_tids : list tid :=
@@ -256,7 +278,6 @@ Fixpoint find_parked (l : list wstate) (p : nat * nat) (k : nat) : option nat :=
 
 (* release policy: among the parked calls, the one that comes first in the priority list
    `rel` (calls encoded as 16 * item + attempt); calls not listed: lowest item first *)
-Definition call_code (p : nat * nat) : nat := 16 * fst p + snd p.
 Definition choose (rel : list nat) (ps : list (nat * nat)) : option (nat * nat) :=
   match find (fun code => existsb (fun p => Nat.eqb (call_code p) code) ps) rel with
   | Some code => find (fun p => Nat.eqb (call_code p) code) ps
@@ -266,21 +287,6 @@ Definition choose (rel : list nat) (ps : list (nat * nat)) : option (nat * nat) 
                                | Some q => if Nat.ltb (call_code p) (call_code q) then Some p else Some q
                                end) ps None
   end.
-
-Fixpoint insert_sorted (x : nat) (l : list nat) : list nat :=
-  match l with
-  | [] => [x]
-  | y :: t => if Nat.leb x y then x :: l else y :: insert_sorted x t
-  end.
-Definition sort_nat (l : list nat) : list nat := fold_right insert_sorted [] l.
-
-(* the quiescent point becomes a pseudo-event of the callback log *)
-Definition note_park (s : bst) (ps : list (nat * nat)) : bst :=
-  {| enq := enq s; adding := adding s; mpc := mpc s; deq := deq s; ws := ws s;
-     slots := slots s; stopf := stopf s; wgc := wgc s; closed := closed s;
-     base := {| log := log (base s) ++ [(CPark nd (sort_nat (map call_code ps)), ROk VNil, false)];
-                cancelled := cancelled (base s) |};
-     ilog := ilog s |}.
 
 (* the observation of a gated run: the parked sets at the quiescent points *)
 Fixpoint gated (fuel : nat) (rel : list nat) (s : bst) (acc : list (list (nat * nat)))
